@@ -33,4 +33,12 @@ CHECKS = {
                 "checked to 2^-15; ambiguous lifts are inconclusive, never guessed.",
         "technique": "TLA+ set-theoretic overlay oracle on the exact arrangement; TLC trace validation of recorded set-operation results",
     },
+    "C09": {
+        "text": "Intersects is defined as non-disjointness of the definitional DE-9IM matrix and the distance as the exact rational minimum "
+                "over all point/segment pairs (Distance.tla); TLC validates every recorded Intersects/Disjoint/Intersection/Distance call "
+                "(both argument orders, all type pairs, collections, long lines, similarity and general-position images, triangle-law "
+                "triples) against those definitions.",
+        "note": TLCNOTE + "Exact decision on lattices N<=8 and images; distance accuracy decided to 2^-7 of the lattice unit (not ulps).",
+        "technique": "TLA+ exact intersects/squared-distance oracle; TLC trace validation of recorded calls",
+    },
 }
